@@ -1,1 +1,153 @@
 //! Verification hooks: `store` (thin pass-through wrappers; feature `verif-hooks` only).
+
+use std::{sync::Arc, time::Duration};
+
+use hickory_server::proto::rr::{Name, RecordType};
+use iroh_dns::pkarr::SignedPacket;
+use n0_error::{Result, StdResultExt};
+
+use crate::{
+    metrics::Metrics,
+    store::{Options, PacketSource, ZoneStore},
+    util::PublicKeyBytes,
+};
+
+/// Mirror of the crate-private `store::Options`.
+#[derive(Debug, Clone, Copy)]
+pub struct StoreOptions {
+    pub max_batch_size: usize,
+    pub max_batch_time: Duration,
+    pub eviction: Duration,
+    pub eviction_interval: Duration,
+}
+
+impl Default for StoreOptions {
+    fn default() -> Self {
+        let o = Options::default();
+        Self {
+            max_batch_size: o.max_batch_size,
+            max_batch_time: o.max_batch_time,
+            eviction: o.eviction,
+            eviction_interval: o.eviction_interval,
+        }
+    }
+}
+
+impl From<StoreOptions> for Options {
+    fn from(o: StoreOptions) -> Self {
+        Options {
+            max_batch_size: o.max_batch_size,
+            max_batch_time: o.max_batch_time,
+            eviction: o.eviction,
+            eviction_interval: o.eviction_interval,
+        }
+    }
+}
+
+/// One answer record as returned by `ZoneStore::resolve`: (owner name, type, ttl, rdata text).
+pub type ResolvedRecord = (String, String, u32, String);
+
+/// Handle on the crate-private `ZoneStore` (cache + packet store), built on a
+/// caller-supplied redb database.
+#[derive(Debug, Clone)]
+pub struct ZoneStoreHandle {
+    store: ZoneStore,
+    metrics: Arc<Metrics>,
+}
+
+impl ZoneStoreHandle {
+    /// `ZoneStore` over `db` (must be called inside a tokio runtime, like the original).
+    pub fn open(db: redb::Database, options: StoreOptions) -> Result<Self> {
+        let metrics = Arc::new(Metrics::default());
+        let store = ZoneStore::verif_from_db(db, options.into(), metrics.clone())?;
+        Ok(Self { store, metrics })
+    }
+
+    /// `ZoneStore` over a fresh in-memory redb database.
+    pub fn in_memory(options: StoreOptions) -> Result<Self> {
+        let db = redb::Database::builder()
+            .create_with_backend(redb::backends::InMemoryBackend::new())
+            .anyerr()?;
+        Self::open(db, options)
+    }
+
+    /// `ZoneStore::insert` (what `PUT /pkarr/<key>` calls after verifying the packet).
+    pub async fn insert(&self, packet: SignedPacket) -> Result<bool> {
+        self.store.insert(packet, PacketSource::PkarrPublish).await
+    }
+
+    /// `ZoneStore::get_signed_packet` (what `GET /pkarr/<key>` calls).
+    pub async fn get_signed_packet(&self, key: &[u8; 32]) -> Result<Option<SignedPacket>> {
+        self.store
+            .get_signed_packet(&PublicKeyBytes::new_unchecked(*key))
+            .await
+    }
+
+    /// `ZoneStore::resolve` (what the DNS zone handler calls); `name` is relative to the
+    /// key's zone (empty string = zone apex).
+    pub async fn resolve(
+        &self,
+        key: &[u8; 32],
+        name: &str,
+        record_type: u16,
+    ) -> Result<Option<Vec<ResolvedRecord>>> {
+        let name = if name.is_empty() {
+            Name::new()
+        } else {
+            Name::from_utf8(name).anyerr()?
+        };
+        let set = self
+            .store
+            .resolve(
+                &PublicKeyBytes::new_unchecked(*key),
+                &name,
+                RecordType::from(record_type),
+            )
+            .await?;
+        Ok(set.map(|set| {
+            set.records_without_rrsigs()
+                .map(|r| {
+                    (
+                        r.name.to_string(),
+                        r.record_type().to_string(),
+                        r.ttl,
+                        r.data.to_string(),
+                    )
+                })
+                .collect()
+        }))
+    }
+
+    /// The metrics object the store updates.
+    pub fn metrics(&self) -> &Arc<Metrics> {
+        &self.metrics
+    }
+}
+
+/// Content of a packet database as read through the store's own table definitions and
+/// `deserialize`.
+#[derive(Debug, Default, Clone)]
+pub struct Dump {
+    /// Rows of the packet table: key, raw stored value, packet bytes read back (or the error).
+    pub packets: Vec<([u8; 32], Vec<u8>, std::result::Result<Vec<u8>, String>)>,
+    /// Rows of the update-time index: (timestamp in microseconds, key).
+    pub update_time: Vec<(u64, [u8; 32])>,
+}
+
+/// Dumps both tables of a packet database (missing tables read as empty).
+pub fn dump(db: &redb::Database) -> Result<Dump> {
+    let d = ZoneStore::verif_dump(db)?;
+    Ok(Dump {
+        packets: d.packets,
+        update_time: d.update_time,
+    })
+}
+
+pub(crate) fn hex(bytes: &[u8]) -> String {
+    use std::fmt::Write;
+    let mut s = String::with_capacity(bytes.len() * 2);
+    for b in bytes {
+        let _ = write!(s, "{b:02x}");
+    }
+    s
+}
